@@ -16,6 +16,7 @@ from vmon import core, gen, contracts
 from vmon import refmodel as rm
 from vmon.shadow import ShadowTrajectory
 
+ANCHORS = ['evo/core/trajectory.py', 'evo/core/lie_algebra.py']
 LEVEL = "exploration"
 SHARDS = {"quick": 8, "thorough": 16}
 RULE = ("histories over the operation alphabet {left/right/propagating transform, Sim(3) left "
